@@ -1,6 +1,7 @@
 import Zlink.Proofs.IdlIfaceRT
 import Zlink.Proofs.IdlLayoutIface
 import Zlink.Proofs.IdlSound
+import Zlink.Proofs.IdlTextSound4
 import Zlink.Gen.Consts
 /-! # C13 — The IDL parser accepts exactly the Varlink grammar and builds the denoted tree
 
@@ -121,6 +122,26 @@ theorem C13_interface_names_sound (i n r : In) (h : interfaceName i = .ok n r) :
     only for sufficient parser fuel.) -/
 theorem C13_sound_tree (s : In) (a : Iface) (h : parseInterface s = .ok a) : ifaceW a = true :=
   parseInterface_sound s a h
+
+/-- **Soundness at the level of the text — nothing is ignored** (every input text, unbounded).
+    `IfaceS a core` (`Zlink/Proofs/IdlTextSound{1..4}.lean`) is the grammar as the parser reads it, as an
+    inductive relation between descriptions and texts: the tokens of the description in order, layout
+    (`GapC`: white space and `#` comments to their line end) between them, white space only where a
+    following comment block belongs to the next item, comment lines (`CommentsS`) in front of the
+    interface, members, fields, parameters and custom-enum variants, the member list of a `type`
+    homogeneous (all typed, or all untyped), members of the three kinds in any order.
+    Whatever `parse_interface` accepts is, after `str::trim`, a text of that grammar **denoting exactly
+    the returned description**: every byte of the accepted text is a token of the description, part of a
+    comment attached to it, or layout — nothing is dropped, nothing invented. (Side condition `ifaceNE`:
+    no inline enum without variants in the result, which the parser can only produce by running out of
+    fuel; the correspondence run's oracle checks it on every accepted text.) -/
+theorem C13_sound_text (s : In) (a : Iface) (h : parseInterface s = .ok a) (hne : ifaceNE a = true) :
+    IfaceS a (trim s) := parseInterface_textSound s a h hne
+
+/-- e.g. the member list of a `type` cannot mix variants and typed fields in an accepted text, and no
+    member of it is dropped: a `type` member of an accepted text is one of the three homogeneous forms. -/
+theorem C13_type_members_homogeneous (i : In) (t : CT) (r : In) (h : typeDef i = .ok t r) (hne : ctNE t = true) :
+    ∃ s, i = s ++ r ∧ TypeS t s := typeDef_split i t r h hne
 
 /-- The statement without the side condition on inline enums (kept visible): it is *false* for a
     constructor-built inline enum with a commented variant, whose only rendering is the multi-line form
